@@ -450,7 +450,7 @@ CONTRACTS.update({
     f"{MR}._create_components": {"receivers": [MR], "params": {}, "raises": True, "verify": False,
                                  "requires": {"C06.S0 the autonomous mode selector exists already (its modes are injection targets and get their setup() here)": "self._automodes is not None"},
                                  "modifies": ["self._components", "self._feedbacks", "self._reset_components", "g_faults", "g_seq"] + _USER,
-                                 "ensures": {"the lists are well formed (verified in contracts/robotinit.py: S4 new pairwise distinct components, K1/K2 order, V1 reset entries)":
+                                 "ensures": {"the lists are well formed (verified in contracts/robotinit.py: C06.S4 new pairwise distinct components, C11.S6 feedback getters/setters existing and pairwise distinct, C10.S5 reset entries with pairwise distinct components)":
                                              "len(comps) >= 0 and len(fbs) >= 0 and len(rsts) >= 0 and "
                                              "forall(a, Int, forall(b, Int, implies(0 <= a and a < b and b < len(comps), not (comps[a][1] is comps[b][1])))) and forall(a, Int, implies(0 <= a and a < len(comps), comps[a][1] is not None)) and "
                                              "forall(a, Int, forall(b, Int, implies(0 <= a and a < b and b < len(fbs), not (fbs[a][0] is fbs[b][0]) and not (fbs[a][1] is fbs[b][1])))) and forall(a, Int, implies(0 <= a and a < len(fbs), fbs[a][0] is not None and fbs[a][1] is not None)) and "
